@@ -718,6 +718,8 @@ pub fn compare(case: &Case, obs: &Obs, r: &RunResult) -> (Vec<Mismatch>, Vec<Str
         if got.ok != want.ok { mm.push(Mismatch { field: if want.ok { "err" } else { "input" }, what: format!("handler step {i} ({}): {} vs specification {}", got.op, if got.ok { "Ok".to_string() } else { format!("Err({})", got.err) }, if want.ok { "Ok".to_string() } else { format!("Err({})", want.err) }) }); break; }
         if !got.ok {
             if got.err != want.err { mm.push(Mismatch { field: "err", what: format!("handler step {i} ({}): error {}, specification {}", got.op, got.err, want.err) }); }
+            // the flag as the handler finds it after a failed operation (a poll that did not complete must not have changed it early)
+            if got.wr != want.wr { mm.push(Mismatch { field: "wrflag", what: format!("handler step {i} ({}, failed with {}): is_writeable() = {}, specification {}", got.op, got.err, got.wr, want.wr) }); }
             continue;
         }
         match got.op.as_str() {
